@@ -688,4 +688,47 @@ theorem manpath_flags_iff_any_delimiter (d : Str) (hd : d ≠ []) (append pre ap
   envPrepend_flags_result d hd append pre app vals oldl hvne hold hv
 
 
+/-! ## non-vacuity: concrete instances of the hypotheses used above -/
+section NonVacuity
+open EupsModel.PathAct
+
+private def sPATH : Str := Str.ofString "PATH"
+private def envX : Env := [(sPATH, Str.ofString "/usr/bin:${X}/b:/usr/bin"), (Str.ofString "F", Str.ofString "/f"),
+  (Str.ofString "N", Str.ofString "${F}/n")]
+
+-- prior elements that hold `$` text are `OldPiece`s, not `GoodPiece`s; the value is a `GoodPiece`
+example : (∀ e ∈ [Str.ofString "/usr/bin", Str.ofString "${X}/b"], OldPiece 58 e) ∧ GoodPiece 58 (Str.ofString "/opt/bin")
+    ∧ ¬ GoodPiece 58 (Str.ofString "${X}/b") := by
+  unfold OldPiece GoodPiece; decide
+-- string_level_any_old_elements / table_roundtrip_string_level on such a variable
+example : envPrepend false true sPATH (Str.ofString "/opt/bin") [58] envX
+    = .ok (envX.set sPATH (Str.ofString "/opt/bin:/usr/bin:${X}/b")) := by decide
+example : pathRun 58 sPATH false [(false, Str.ofString "/opt/bin")] (envX.set sPATH (Str.ofString "/opt/bin:/usr/bin:${X}/b"))
+    = .ok (envX.set sPATH (Str.ofString "/usr/bin:${X}/b")) := by decide
+-- path_expands_reference / path_nested_reference: `${F}/bin` and `${N}/bin`
+example : GoodKey (Str.ofString "F") ∧ GoodKey (Str.ofString "N") := by unfold GoodKey; decide
+example : envPrepend true true sPATH (Str.ofString "${F}/bin") [58] envX
+    = .ok (envX.set sPATH (Str.ofString "/usr/bin:${X}/b:/f/bin")) := by decide
+example : envPrepend true true sPATH (Str.ofString "${N}/bin") [58] envX
+    = .ok (envX.set sPATH (Str.ofString "/usr/bin:${X}/b:/f/n/bin")) := by decide
+example : envPrepend true false sPATH (Str.ofString "${N}/bin") [58] (envX.set sPATH (Str.ofString "/usr/bin:/f/n/bin"))
+    = .ok (envX.set sPATH (Str.ofString "/usr/bin")) := by decide
+-- envset_two_references
+example : envSet true (Str.ofString "V") (Str.ofString "${F}/a/${N}") envX
+    = .ok (envX.set (Str.ofString "V") (Str.ofString "/f/a//f/n")) := by decide
+-- eups_path_subscript: digits, a name without `[`
+example : AllDigits (Str.ofString "10") ∧ 91 ∉ exProd.name := by unfold AllDigits; decide
+example : expandArg exProd (some (Str.ofString "/st:/o")) (Str.ofString "x/${EUPS_PATH[1]}/share") = Str.ofString "x//o/share" := by
+  decide
+-- product_dir_macro / path_product_dir
+example : exProd.dir = some (Str.ofString "/st/p/1") ∧ GoodPiece 58 (Str.ofString "/st/p/1" ++ Str.ofString "/bin") := by
+  unfold GoodPiece; decide
+-- manpath_flags_any_delimiter with `::`
+example : OldPieceD [58, 58] (Str.ofString "/a/${X}") ∧ GoodPieceD [58, 58] (Str.ofString "/m1") := by
+  unfold OldPieceD GoodPieceD; decide
+example : flaggedD [58, 58] true false (Str.ofString "/m1") = Str.ofString "::/m1" := by decide
+
+end NonVacuity
+
+
 end EupsModel.C12
